@@ -18,7 +18,7 @@ type propC09 struct{}
 func init() { RegisterProperty(propC09{}) }
 
 func (propC09) ID() string      { return "C09" }
-func (propC09) Modes() []string { return []string{"headers"} }
+func (propC09) Modes() []string { return []string{"headers", "openapi-headers"} }
 
 // InvalidHeaderValue returns a value in the unambiguously-invalid column of the header
 // table (DESIGN.md Appendix C.2); ok=false when the declared type has no such value
@@ -52,7 +52,66 @@ func InvalidHeaderValue(h *spec.Header, variant int) (string, bool) {
 
 // header case notes stored in Op.App.Fields: "hdr:<lower name>=<absent|empty|valid|invalid>"
 
+// drawOpenAPIHeaders: requests whose headers satisfy exactly what the OpenAPI document
+// publishes for the operation (required parameters present with a value valid for the
+// published type/format, parameters published as optional left out): such a request
+// must never be rejected for its headers.
+func drawOpenAPIHeaders(rt *rapid.T, w *WorldDesc) *Plan {
+	p := &Plan{}
+	docs := loadOpenAPI(w)
+	var methods []*MethodDesc
+	for _, m := range w.AllMethods() {
+		r := w.RPC(m.Key)
+		if r != nil && r.PathKnown && len(findOperation(docs, r.Service, r.Method)) == 1 {
+			methods = append(methods, m)
+		}
+	}
+	if len(methods) == 0 {
+		return p
+	}
+	nOps := rapid.IntRange(1, 2).Draw(rt, "nOps")
+	for i := 0; i < nOps; i++ {
+		l := fmt.Sprintf("op%d", i)
+		md := methods[rapid.IntRange(0, len(methods)-1).Draw(rt, l+".rpc")]
+		rpc := w.RPC(md.Key)
+		oop := findOperation(docs, rpc.Service, rpc.Method)[0]
+		op := &Op{ID: i, RPC: md.Key, Client: "raw", Server: drawServer(rt, l+".server"), App: AppBehaviour{Kind: "respond"}}
+		req := drawValidReq(rt, w, md, l+".req")
+		if op.Server == "ts" {
+			scrubNonFinite(req.ProtoReflect(), 0)
+		}
+		raw, err := ValidRaw(rpc, req, "application/json", nil)
+		if err != nil {
+			continue
+		}
+		for hi, prm := range oop.Params {
+			if prm.In != "header" {
+				continue
+			}
+			include := prm.Required || rapid.IntRange(0, 3).Draw(rt, fmt.Sprintf("%s.h%d.opt", l, hi)) == 0
+			if !include {
+				op.Notes = append(op.Notes, "oa:"+strings.ToLower(prm.Name)+"=omitted-optional")
+				continue
+			}
+			v := ValidHeaderValue(&spec.Header{Name: prm.Name, Type: prm.Schema.Type, Format: prm.Schema.Format}, rapid.IntRange(0, 3).Draw(rt, fmt.Sprintf("%s.h%d.variant", l, hi)))
+			raw.Headers = append(raw.Headers, [2]string{prm.Name, v})
+			op.Notes = append(op.Notes, "oa:"+strings.ToLower(prm.Name)+"=valid")
+		}
+		op.Notes = append(op.Notes, "openapi=1")
+		op.Raw = raw
+		op.ReqBin = mustMarshal(req)
+		op.RespBin = mustMarshal(md.NewResp())
+		op.DeadlineMs = 600000
+		p.Ops = append(p.Ops, op)
+	}
+	p.Schedule = drawSchedule(rt, 32)
+	return p
+}
+
 func (propC09) Draw(rt *rapid.T, w *WorldDesc, mode string) *Plan {
+	if mode == "openapi-headers" {
+		return drawOpenAPIHeaders(rt, w)
+	}
 	p := &Plan{}
 	var methods []*MethodDesc
 	for _, m := range w.AllMethods() {
@@ -154,6 +213,36 @@ func (propC09) Check(k *Kernel, cov *Coverage) *Violation {
 		}
 		rpc := k.W.RPC(c.Op.RPC)
 		cn := c.Conns[0]
+		if noteOf(c.Op, "openapi") == "1" {
+			// headers exactly as published by the OpenAPI parameter list
+			if cn.Panic != "" {
+				return &Violation{Class: "server-panic", Signature: "C09|server-panic|" + c.Op.Server, Detail: cn.Panic}
+			}
+			if !c.Returned || c.RespErr != nil {
+				continue
+			}
+			if c.Status == 400 {
+				ve, err := decodeValidation(c)
+				if err == nil {
+					for _, v := range ve.GetViolations() {
+						for _, h := range rpc.Headers {
+							if strings.EqualFold(v.GetField(), h.Name) {
+								st := "valid"
+								for _, n := range c.Op.Notes {
+									if n == "oa:"+strings.ToLower(h.Name)+"=omitted-optional" {
+										st = "omitted-optional"
+									}
+								}
+								return &Violation{Class: "published-headers-rejected", Signature: "C09|published-headers-rejected|" + c.Op.Server + "|" + st,
+									Detail: fmt.Sprintf("op %d %s %s headers=%v satisfy the OpenAPI parameter list of the operation (%s), yet the server answers 400 naming header %q: %s", c.Op.ID, c.Op.Raw.Verb, c.Op.Raw.Target, c.Op.Raw.Headers, strings.Join(c.Op.Notes, " "), v.GetField(), v.GetDescription())}
+							}
+						}
+					}
+				}
+			}
+			cov.Tuple(k.W.Name, c.Op.RPC, c.Op.Server, "openapi-headers", fmt.Sprintf("status=%d", c.Status))
+			continue
+		}
 		var offending []string
 		states := map[string]string{}
 		for _, n := range c.Op.Notes {
